@@ -217,6 +217,13 @@ WORDS = ["alpha", "beta", "gamma", "delta 4", "k = v", "end.", "bend", "x1", "xx
 NAMES = ["A", "B", "color", "Toggles", "cc", "menu"]
 
 
+ENV0 = {"home": [], "vname": [], "vval": []}          # HOME and one more variable as the parsed text sees them ([] = unset)
+
+
+def mkenv(home="", vname="", vval=""):
+    return {"home": [ord(c) for c in home], "vname": [ord(c) for c in vname], "vval": [ord(c) for c in vval]}
+
+
 PROGS = ["libast", "tsabil", "LIBAST", "Eterm", "etern", "x", "my-configurator", "my-configuratos"]
 
 
@@ -268,7 +275,7 @@ def gen_tree(rnd, big):
     prog = rnd.choice(PROGS)
     magic = [prog] + [prog if rnd.random() < 0.8 else rnd.choice(PROGS) for _ in range(nfiles - 1)]
     return {"fam": "list", "n": 0, "regfam": "list", "nreg": 0, "names": [[ord(c) for c in n] for n in reg], "nullmode": nullmode,
-            "prog": [ord(c) for c in prog], "magic": [[ord(c) for c in m] for m in magic],
+            "prog": [ord(c) for c in prog], "magic": [[ord(c) for c in m] for m in magic], "env": ENV0,
             "kinds": kinds, "maxlen": [0] * nfiles, "alpha": "none", "content": content}
 
 
@@ -279,9 +286,10 @@ FIRST_BYTES = [v for v in range(3, 256) if v not in EXPANSION_BYTES and v not in
 SIZES = sorted(set(n + d for n in (8, 16, 32, 64, 128, 256, 512, 1024, 2048, 4096, 8192, 20478) for d in (-1, 0, 1)))
 
 
-def _one(names, nullmode, lines, prog="libast", magic=None, more=()):
+def _one(names, nullmode, lines, prog="libast", magic=None, more=(), env=None):
     files = [lines] + list(more)
     return {"fam": "list", "n": 0, "regfam": "list", "nreg": 0, "names": [[ord(c) for c in n] for n in names], "nullmode": nullmode,
+            "env": env or ENV0,
             "prog": [ord(c) for c in prog], "magic": [[ord(c) for c in m] for m in (magic or [prog] * len(files))],
             "kinds": ["ok"] * len(files), "maxlen": [0] * len(files), "alpha": "none", "content": files}
 
@@ -358,8 +366,50 @@ def value_and_size_families(tier):
     return out
 
 
+def quoting_families(tier):
+    """Direction-B inputs about the EMPTY value and about quoting:
+    names - a context registered under "" (and one under a name with a blank) opened with begin "" / '' / a lone quote / quoted
+    and half-quoted names, with and without that registration;
+    %include names - every special character of value expansion ($NAME, ~, backslash pairs, both quote characters) inside each
+    quoting level (none, single, double) of the name, with an environment in which the expanded and the literal reading name
+    different files; the empty name in both spellings, a lone and an unterminated quote; a variable whose value has blanks."""
+    out = []
+    begins = ['""', "''", '"', "'", '"A"', "'A'", '"a b"', "'a b'", '"A', 'A"', '"" x', "''''", '"\\""', "a b", 'A""', '" "']
+    for names in (["", "A", "a b", '"'], ["A"], ["a b", ""]):
+        for nullmode in ("first", "builtin"):
+            lines = []
+            for b in begins:
+                lines += [L("begin " + b), L("t " + b.replace("\\", "")), L("end")]
+            out.append(_one(names, nullmode, lines))
+    f2, f3 = [L("two")], [L("begin A"), L("three"), L("end")]
+    specials = ["$N", "${N}x", "~", "\\3", "\\\\", '\\"', "\\'", "$", "$NOSUCH", "~~"]
+    for env in (mkenv(home="f00", vname="N", vval="3"), mkenv(home="", vname="N", vval="2"), mkenv(home="f00", vname="N", vval="2.cfg junk"),
+                mkenv(home="f002.cfg", vname="V", vval="'f003.cfg'")):
+        lines = [L("begin A")]
+        for sp in specials:
+            for name in ("f00%s.cfg" % sp, "%s2.cfg" % sp, "f00%s" % sp, sp):
+                for q in ('%s', "'%s'", '"%s"', "'%s", '"%s', "%s x", "'%s' x"):
+                    t = "%include " + (q % name)
+                    if "'" in name and q.startswith('"') or "${" in t:
+                        continue                    # X: a single quote inside double quotes, the ${ form
+                    lines += [L(t), L("k")]
+        for t in ('%include ""', "%include ''", '%include "', "%include '", '%include " "', '%include "f002.cfg', "%include 'f003.cfg", '%include $V', '%include "$V"',
+                  "%include '$V'", '%include ~', '%include "~"', "%include '~'", '%include f002.cfg"', "%include ''f002.cfg", '%include "f00"2.cfg'):
+            lines += [L(t), L("k")]
+        lines.append(L("end"))
+        for c0 in range(1, len(lines) - 1, 120):
+            out.append(_one(["A"], "first", [lines[0]] + lines[c0:c0 + 120] + [lines[-1]] if c0 + 120 < len(lines) - 1 else [lines[0]] + lines[c0:],
+                            more=[f2, f3], env=env))
+    return out
+
+
 def tree_script(sid, cfg):
-    out = ["S %d" % sid, "prog %s = ? ?" % x_c09.blist(cfg["prog"]), "init = ? ?"]
+    env = cfg.get("env") or ENV0
+    out = ["S %d" % sid, "prog %s = ? ?" % x_c09.blist(cfg["prog"]),
+           "setenv %s %s = ? ?" % (x_c09.blist(b"HOME"), x_c09.blist(env["home"]) if env["home"] else "-")]
+    if env["vname"]:
+        out.append("setenv %s %s = ? ?" % (x_c09.blist(env["vname"]), x_c09.blist(env["vval"])))
+    out.append("init = ? ?")
     for f, (k, lines) in enumerate(zip(cfg["kinds"], cfg["content"]), 1):
         data = x_c09.file_bytes({"kind": k, "lines": lines, "magic": cfg["magic"][f - 1]})
         if data is not None:
@@ -376,7 +426,7 @@ def trace_validation(ctx, exe):
     from vlib import trace
     rnd = random.Random(ctx.seed)
     n = 300 if ctx.tier == "quick" else 3000
-    fam = value_and_size_families(ctx.tier) + name_and_setting_families(ctx.tier)
+    fam = value_and_size_families(ctx.tier) + name_and_setting_families(ctx.tier) + quoting_families(ctx.tier)
     cfgs = fam + [gen_tree(rnd, big=(k % 4 == 0)) for k in range(n)]
     ctx.cov["value_and_size_family_executions"] = len(fam)
     scripts = [tree_script(k + 1, c) for k, c in enumerate(cfgs)]
